@@ -9,6 +9,7 @@ func init() {
 	vRegister("H_C12_Packet", H_C12_Packet)
 	vRegister("H_C12_Stream", H_C12_Stream)
 	vRegister("H_C12_PushPullState", H_C12_PushPullState)
+	vRegister("H_C12_GossipCompound", H_C12_GossipCompound)
 }
 
 type vNetCfg struct {
@@ -226,4 +227,42 @@ func H_C12_PushPullState() {
 		vAssert(vEqBytes(ns.Meta, fa.m.nodeMap[vSelf].Meta), "c12.pp.meta")
 	}
 	vCover("c12.pp")
+}
+
+// C12: several gossiped messages of very different sizes (one of them longer than 255 bytes) packed into one
+// packet reach the peer's handlers byte for byte, under every pipeline configuration.
+func H_C12_GossipCompound() {
+	vOpt("hostile-budget", 1) // mis-framed parts fall into the garbage decoders; one such decode per path is enough to see the loss
+	c := vPickNetCfg()
+	ca, cb := vBaseConfig(), vBaseConfig()
+	cb.Name = vPeerA
+	c.apply(ca)
+	c.apply(cb)
+	ca.GossipNodes = 1
+	fa, fb := vNewML(ca), vNewML(cb)
+	fa.vAddSelf(3, nil)
+	fa.vAddConcreteAlive(vPeerA, 2).PMax = c.peer().PMax
+	fb.vAddSelfNamed(vPeerA)
+	big := []int{255, 256, 300}[vPick(3)]
+	msgs := [][]byte{vBytes(2), make([]byte, big), vBytes(1)}
+	msgs[1][0], msgs[1][big-1] = vU8(), vU8()
+	fa.del = &vDelegateRec{bcast: msgs}
+	ca.Delegate = fa.del
+	fa.m.gossip()
+	vAssert(len(fa.tr.packets) == 1, "c12.gossip.one-packet")
+	if len(fa.tr.packets) != 1 {
+		return
+	}
+	fb.m.ingestPacket(fa.tr.packets[0], vAddr("10.0.0.1:7946"), time.Time{})
+	// LIFO handoff: the three user messages come back in reverse order
+	for i := 2; i >= 0; i-- {
+		h, ok := fb.m.getNextMessage()
+		vAssert(ok && h.msgType == userMsg, "c12.gossip.delivered")
+		if ok {
+			vAssert(vEqBytes(h.buf, msgs[i]), "c12.gossip.payload-intact")
+		}
+	}
+	_, more := fb.m.getNextMessage()
+	vAssert(!more, "c12.gossip.nothing-else")
+	vCover("c12.gossip")
 }
